@@ -388,6 +388,9 @@ func replayMain(args []string) {
 		}
 	}
 	traceReplay = *trace
+	if *trace {
+		traceFile = os.Stdout
+	}
 	rep1 := safeRun(func() *RunReport { return mode.Replay(bin, sc) })
 	rep2 := safeRun(func() *RunReport { return mode.Replay(bin, sc) })
 	if rep1.Harness != "" {
